@@ -24,7 +24,7 @@ from vf.sym import MV, SymName, SymRef, SymInt, SymBool, SymDict, NONEVAL, PyExc
 from vf.spec import Z3Ops, P, View, CallShape, PO, POK, VP, KWO, VK
 from vf.interp import Interp, Inst, IClass
 from vf.harness import VC, mk_sig, mk_call, sig_view, pview, run_unit
-from .common import clause, name_term, ua_denotes, stands_of, install_concile_summary
+from .common import clause, name_term, ua_denotes, stands_of, install_concile_summary, ua_follows_goal, ua_return_goal
 from .merge import exc_is, src_entries, key_eq, sym_sig_data, real_sig_data
 from .mask import flag_value, same_params_term
 
@@ -195,13 +195,9 @@ def embed_vcs(env, want):
                     ok = p.kind == o.kind or (o.kind == POK and p.kind in (PO, KWO))
                     out.append(VC(C_META_KIND.full + tag, [], z3.BoolVal(ok), C_META_KIND.props))
                 if on(C_UA):
-                    h, den = ua_denotes(p._d['upgraded_annotation'], EmptyAnn)
-                    out.append(VC(C_UA.full + tag, [], z3.And(h == a.has, z3.Implies(a.has, den == a.val)), C_UA.props))
+                    out.append(VC(C_UA.full + tag, [], ua_follows_goal(p, EmptyAnn, cands=list({id(x): x for x in [o] + stands_of(p)}.values())), C_UA.props))
             if on(C_UA):
-                ra, ora = res._d['_return_annotation'], outer.sig._d['_return_annotation']
-                h, den = ua_denotes(res._d['upgraded_return_annotation'], EmptyAnn)
-                out.append(VC(C_UA.full + ':return', [], z3.And(ra.has == ora.has, z3.Implies(ora.has, ra.val == ora.val),
-                                                                h == ra.has, z3.Implies(ra.has, den == ra.val)), C_UA.props))
+                out.append(VC(C_UA.full + ':return', [], ua_return_goal(res, outer.sig, EmptyAnn), C_UA.props))
     src = res._d.get('sources')
     if isinstance(src, SymDict) and (on(C_SRC_WF) or on(C_SRC_EXACT) or on(C_DEPTHS)):
         ent, dep = src_entries(src)
@@ -253,6 +249,8 @@ def embed_vcs(env, want):
 
 def make_runner(shapes_, mode='embed', want=None, flags=True):
     I = Interp()
+    from vf import world as _world
+    _world.install_externals(I, {})     # eval(expression, f.__globals__) is the uninterpreted evalin
     install_concile_summary(I)
     m = I.module('sigtools._signatures')
     env = {'interp': I, 'mode': mode}
